@@ -375,6 +375,40 @@ func mappingSweep(r *vk.Run) {
 			}
 		}
 	}
+	// name lookup matrix: nine controllers configured under boundary serial numbers (0 and 0xffffffff
+	// included), each with a name of its own; replies carrying every serial number of a 32-bit boundary
+	// alphabet - the entry's name is the name configured for exactly that serial number, else empty
+	{
+		ids := []uint32{0, 1, 2, 255, 256, 0x00ffffff, 0x01000000, sA, 0xffffffff}
+		names := map[uint32]string{}
+		devices := []uhppote.Device{}
+		for i, id := range ids {
+			names[id] = fmt.Sprintf("ctrl-%d", i)
+			devices = append(devices, uhppote.Device{Name: names[id], DeviceID: id})
+		}
+		var cur []byte
+		f := &drv.Fake{Script: func(drv.Call) ([][]byte, error) { return [][]byte{cur}, nil }}
+		u := uhppote.NewUHPPOTE(types.BindAddr{}, types.BroadcastAddr{}, types.ListenAddr{}, T, devices, false)
+		drv.Install(u, f)
+		serials := append([]uint32{}, ids...)
+		for i := 0; i < 32; i++ {
+			serials = append(serials, 1<<uint(i), ^(uint32(1) << uint(i)))
+		}
+		serials = append(serials, sB, sA+1, sA-1, 0xfffffffe, 0x7fffffff, 0x80000000, 65535, 65536)
+		for _, serial := range serials {
+			n++
+			cur = spec.EncodeReply(devOp, serial, ops.BaselineReply(devOp))
+			list, err := ops.InvokeGetDevices(u)
+			c := map[string]any{"reply": vk.Hex(cur), "configured": names}
+			if err != nil || len(list) != 1 {
+				r.Violation("C11/mapping/name-matrix/entry-count", fmt.Sprintf("one well-formed reply with serial number %d: err=%v entries=%d", serial, err, len(list)), "mapping", c)
+				continue
+			}
+			if got := list[0]["Name"]; got != names[serial] {
+				r.Violation("C11/mapping/Name/wrong-value", fmt.Sprintf("name %q for the reply with serial number %d, the controller configured under that number is named %q", got, serial, names[serial]), "mapping", c)
+			}
+		}
+	}
 	r.Count(n)
 	r.Add("mapping_sweep_cases", n)
 }
